@@ -100,6 +100,26 @@ Theorem C18_newline : forall h e c args raw,
 Proof. exact newline_never_invokes. Qed.
 Print Assumptions C18_newline.
 
+(* ---- sequences of messages ---- *)
+
+(* k messages in a row: the i-th outcome is the outcome of the i-th message alone, so each
+   invocation has exactly its own arguments whatever came before or comes after (that the
+   implementation keeps nothing between calls - no shared buffers behind Input.Args - is
+   what suite cmd.seq tests while earlier functions are still running) *)
+Theorem C18_sequence_independent : forall h es i,
+  nth_error (execute_seq h es) i = option_map (execute h) (nth_error es i).
+Proof. exact execute_seq_nth. Qed.
+Print Assumptions C18_sequence_independent.
+
+Theorem C18_sequence_invoke_iff : forall h es i c args raw,
+  nth_error (execute_seq h es) i = Some (Invoke c args raw) <->
+  exists e src n, nth_error es i = Some e /\ ev_source e = Some src /\ ev_command e = PRIVMSG /\
+    addresses (h_prefix h) (last_param e) n raw /\ n <> help_name /\
+    tbl_get n (h_cmds h) = Some c /\ args_split raw args /\
+    (c_minargs c <= Z.of_nat (length args))%Z.
+Proof. exact execute_seq_invoke_iff. Qed.
+Print Assumptions C18_sequence_invoke_iff.
+
 (* ---- the built-in help ---- *)
 
 (* a text that addresses "help" never runs a function, registered "help" or not *)
